@@ -124,6 +124,12 @@ fn gen_group(r: &mut Rng, cfg_bits: u64, v: &Voc, depth: u32) -> Vec<Elem> {
         // the same block once more under another graph variable / graph: look-alike sub-plans for the optimizer's memo table
         if cfg_bits & 2048 != 0 && r.chance(1, 2) { let g2 = if g == "?g" || r.chance(1, 2) { "?h".to_string() } else { "?g".to_string() }; out.push(Elem::Graph { g: g2, bgp: bgp.clone() }); }
         out.push(Elem::Graph { g, bgp }); }
+    if cfg_bits & 8192 != 0 && depth == 0 && r.chance(1, 2) {
+        // two UNIONs whose second branches leave the shared variable ?a unbound: a join both of whose inputs hold rows without the join key
+        let (p1, p2) = (v.p(r), v.p(r));
+        out.push(Elem::Union(vec![Elem::Bgp(vec![TP { s: "?a".into(), p: p1.clone(), o: "?b".into() }])], vec![Elem::Bgp(vec![TP { s: "?c".into(), p: p1, o: "?b".into() }])]));
+        out.push(Elem::Union(vec![Elem::Bgp(vec![TP { s: "?a".into(), p: p2.clone(), o: "?d".into() }])], vec![Elem::Bgp(vec![TP { s: "?c".into(), p: p2, o: "?d".into() }])]));
+    }
     if cfg_bits & 4 != 0 && depth == 0 && r.chance(1, 2) { let ka = 1 + r.usize(2); let kb = 1 + r.usize(2); out.push(Elem::Union(vec![Elem::Bgp(gen_bgp(r, v, &vars, ka, 0))], vec![Elem::Bgp(gen_bgp(r, v, &vars, kb, 1))])); }
     if cfg_bits & 8 != 0 && !mv.is_empty() && r.chance(1, 2) { let x = r.pick(&mv).clone(); let f = match r.below(4) { 0 => format!("{} != {}", x, v.n(r)), 1 => format!("{} = {}", x, v.n(r)), 2 if mv.len() > 1 => format!("{} != {}", x, r.pick(&mv)), _ => format!("{} != \"v1\"", x) }; out.push(Elem::Filter(f)); }
     if cfg_bits & 16 != 0 && !mv.is_empty() && r.chance(1, 2) { let x = r.pick(&mv).clone(); out.push(Elem::Bind { expr: format!("CONCAT({}, \"-x\")", x), var: "?bound".to_string() }); }
